@@ -453,8 +453,8 @@ func (p *Program) AccessesOf(fn *ssa.Function) []Access {
 
 // GuardSpec describes what a lock protects.
 type GuardSpec struct {
-	Lock   string              // e.g. GCAServer.mu
-	Roots  []Class             // class prefixes it protects, e.g. {T:GCAServer}
+	Lock   string               // e.g. GCAServer.mu
+	Roots  []Class              // class prefixes it protects, e.g. {T:GCAServer}
 	Exempt func(c Class) string // returns a reason if the class is not guarded
 }
 
